@@ -1,7 +1,7 @@
 (* Property C20: caches and event dispatch obey their sequential spec under any schedule.
    Only statements; every proof is `exact <lemma from Proofs/EventsP.v, CacheP.v, CacheThreadP.v>`. *)
 From TenpyV Require Import Base.Prelude Model.Events Proofs.EventsP Model.Cache Proofs.CacheP.
-From TenpyV Require Import Model.CacheThread Proofs.CacheThreadP.
+From TenpyV Require Import Model.CacheThread Proofs.CacheThreadP Model.CacheClose Proofs.CacheCloseP.
 Open Scope Z_scope.
 
 (* ---------------------------------------------------------------- event dispatch *)
@@ -152,6 +152,60 @@ Example T20_calls_example :
   = [SSave 1 10; SSave 2 20; SLoad 2; SPreload 1; SPreload 2; SDelete 1].
 Proof. vm_compute. reflexivity. Qed.
 
+(* ---------------------------------------------------------------- close() of ThreadedStorage / Worker
+   Model/CacheClose.v: the LTS of Model/CacheThread.v (used unchanged) extended by close() calls in the caller's
+   program: _common_close (ValueError when already closed), Worker.__exit__ (exit.set(); worker_thread.join()), the
+   worker testing `exit` whenever it is idle and draining the queue in its `finally`, then disk_storage.close(),
+   _loaded.clear(), _waiting_for_load.clear().  Not modelled: sub-containers, CacheFile / DictCache layer, files. *)
+
+(* no deadlock on close: close() started between two operations from ANY state of the LTS (in particular from every
+   reachable one: any queue content, worker idle / running a task / dying after a failure / dead), any queue size, any
+   injected failure, under ANY schedule that gives the worker wsteps <= |queue| + 3 turns (caller turns interleaved
+   arbitrarily): close() returns, the storage is closed, the worker thread has terminated and no worker step is
+   enabled, _loaded is empty *)
+Theorem T20_close_no_deadlock : forall qmax fail_at st rest sched,
+  c_pc st = CNone -> t_pc (c_base st) = PIdle -> c_prog st = CClose :: rest -> c_opened st = true ->
+  (wsteps (c_base st) <= count_worker sched)%nat ->
+  let st' := cl_run qmax fail_at (true :: sched ++ [true]) st in
+  closed_st st' /\ In CClosedOk (c_outs st') /\ worker_step_c fail_at st' = None.
+Proof. exact close_no_deadlock. Qed.
+
+(* closed is absorbing: after close() has returned, under every schedule and every further program (operations and
+   close() calls) the storage stays closed, no worker step is ever enabled again, and every storage operation that
+   finishes returns WorkerDied - or is the silent preload (TOk) of a key an earlier failed load left in
+   _waiting_for_load; no operation returns a value *)
+Theorem T20_closed_forever : forall qmax fail_at sched st, closed_st st ->
+  let st' := cl_run qmax fail_at sched st in
+  closed_st st' /\ worker_step_c fail_at st' = None /\
+  exists l, t_outs (c_base st') = l ++ t_outs (c_base st) /\ Forall (fun o => o = TWorkerDied \/ o = TOk) l.
+Proof. exact closed_forever. Qed.
+
+(* one operation after close(), precisely: WorkerDied at once; or TOk for preload(k) with k already waiting; or a
+   load(k) with k already waiting, whose next step raises WorkerDied (loadb_post) *)
+Theorem T20_after_close_op : forall qmax b op, t_status b = WDead -> t_loaded b = [] ->
+  let b' := start_op qmax b op in
+  t_status b' = WDead /\ t_loaded b' = [] /\
+  ((t_pc b' = PIdle /\ exists o, t_outs b' = o :: t_outs b /\
+     (o = TWorkerDied \/ (o = TOk /\ exists k, op = SPreload k /\ ks_mem k (t_waiting b) = true))) \/
+   (exists k, op = SLoad k /\ ks_mem k (t_waiting b) = true /\ t_pc b' = PLoadB k /\ t_outs b' = t_outs b)).
+Proof. exact start_op_post. Qed.
+
+(* a second close() is the documented error ValueError('storage was already closed') and changes nothing *)
+Theorem T20_second_close_raises : forall qmax st rest, closed_st st -> t_pc (c_base st) = PIdle ->
+  c_prog st = CClose :: rest ->
+  exists st', caller_step_c qmax st = Some st' /\ c_outs st' = CAlreadyClosed :: c_outs st /\ closed_st st'.
+Proof. exact second_close. Qed.
+
+(* non-vacuity: two saves, close with both still queued (queue size 0 = unbounded), then a load and a second close;
+   the worker gets 5 turns: close returns, the queued saves are dropped, the load raises WorkerDied, the second close
+   is refused *)
+Example T20_example_close :
+  let prog := [COp (SSave 1 10); COp (SSave 2 20); CClose; COp (SLoad 1); CClose] in
+  let st := cl_run 0 None [true; true; true; false; false; false; false; false; true; true; true] (cl_init prog) in
+  closed_st st /\ c_outs st = [CAlreadyClosed; CClosedOk] /\ t_outs (c_base st) = [TWorkerDied; TOk; TOk] /\
+  t_disk (c_base st) = [] /\ c_prog st = [].
+Proof. cbn zeta. unfold closed_st, pc_quiet. vm_compute. repeat split; auto. Qed.
+
 Print Assumptions T20_events.
 Print Assumptions T20_events_emit_until.
 Print Assumptions T20_events_disconnect.
@@ -167,3 +221,7 @@ Print Assumptions T20_threaded_under_dictcache.
 Print Assumptions T20_no_deadlock.
 Print Assumptions T20_dead_worker_never_blocks.
 Print Assumptions T20_dead_worker_raises.
+Print Assumptions T20_close_no_deadlock.
+Print Assumptions T20_closed_forever.
+Print Assumptions T20_after_close_op.
+Print Assumptions T20_second_close_raises.
